@@ -60,9 +60,26 @@ PROPS = {
              COMMON_ASSUME + ["an IPv4 address supplied for an ipv6Address element is not judged (net.IP treats it as its ::ffff: form)",
                               "a data set whose template send itself failed is a gray zone and is not generated"],
              "runtime monitor: expected-stream model (concatenation of accepted messages) over bytes captured at a raw peer, marker messages"),
+    "C03": P(False, (8, 16), 16, (1200, 5400), 100000, 50000, "exploration",
+             "one evaluation = one byte string presented (VerifDecodePacket hook) to a fresh collecting process in one of the 3 decoding modes "
+             "after it was put into a template state {none, natural (with unknown elements in lenient modes), zero fields, zero-length unknown "
+             "elements, all variable-length, 1-byte fields, signed64, wide fixed, reduced-size, replaced, invalidated, 200..2000 fields, "
+             "template id < 256}. Inputs: random bytes (0..65535), grammar (valid header + set header + PRNG body sized around record "
+             "multiples), valid data/template messages mutated (every truncation offset of short messages, tail truncations, extension and "
+             "in-set padding by 1..9 bytes, bit flips, message/set length edits, set id edits, 0xFF/0x00 byte sets hitting length prefixes, "
+             "version edits). Monitors: panic capture; CPU-time (5 CPU-s) and heap-growth (384 MiB) budget per call; exactness oracle: a "
+             "delivered data message must equal refipfix's split of the body under the template in force (padding < shortest record), a "
+             "delivered template must match the wire's ids/enterprise numbers. Non-trivial = version 10 and >= 20 bytes (reaches set "
+             "decoding); distinct by (mode, state, input bytes).",
+             COMMON_ASSUME + ["an error return is always acceptable for C03", "not judged for exactness (still for totality): known elements announced with a non-registry length, "
+                              "messages whose header/set length disagree with the bytes presented, set ids < 256, bytes after the first template record"],
+             "runtime monitor: panic/CPU/heap budget monitors + reference-decoder oracle over hostile inputs x template states x modes"),
 }
 
 LEVEL_TEXT = {
+    "C03": "Held on every input explored: no panic, no call over the CPU/heap budget, every delivered message exactly what the bytes define. "
+           "Totality over all byte strings cannot be enumerated; hostile-input exploration with a crash/hang monitor and an independent "
+           "reference decoder is what this family offers, and the input classes are aimed at the decoder's length arithmetic.",
     "C08": "Held on every session explored, including sessions that cross the 2^32 wrap. Exploration over random histories is the right "
            "level: the counter is a function of the send history only.",
     "C09": "Held on every history explored: nothing but the accepted messages ever reached the peer, and every refusal was reported as an "
